@@ -1697,16 +1697,20 @@ class Frame {
   size_t offset;
   // The running maximum size of the frame.
   size_t size;
+  // The number of words at the bottom of the frame (the actual parameter
+  // slots of a call being set up) that temporaries must stay clear of.
+  size_t reserved;
   // Exit label.
   std::string exitLabel;
 
 public:
-  Frame(std::string exitLabel) : offset(0), size(0), exitLabel(exitLabel) {}
+  Frame(std::string exitLabel) : offset(0), size(0), reserved(0), exitLabel(exitLabel) {}
   int getSize() { return size; }
   void incOffset(int amount) {
     offset += amount;
-    size = std::max(size, offset); // +1 since it's an offset?
+    size = std::max(size, offset + reserved); // +1 since it's an offset?
   }
+  void setReserved(size_t value) { reserved = value; }
   void decOffset(int amount) {
     offset -= amount;
   }
@@ -2593,6 +2597,10 @@ public:
     // that a temporary used by one of those cannot overwrite a saved value
     // that has not been loaded yet.
     size_t temporaryOffset = currentFrame->getOffset();
+    // The actual parameter slots are at the bottom of the frame and are
+    // written one by one: a temporary used to evaluate a later actual must
+    // not be placed on a slot that has already been written.
+    currentFrame->setReserved(args.size() + parameterOffset);
     for (auto &arg : args) {
       if (containsCall(arg)) {
         currentFrame->incOffset(1);
@@ -2617,6 +2625,7 @@ public:
       }
       parameterIndex++;
     }
+    currentFrame->setReserved(0);
   }
 
   void genSysCall(int syscallId, const std::vector<std::unique_ptr<Expr>> &args,
